@@ -154,7 +154,7 @@ def shrink_candidates(scn):
 
 def describe():
     return {
-        'rule': 'each executed instruction of each replica is compared with RefZ80 (registers, documented flags only, memory writes, port events, T-states; contended engines: T minus RefULA delay is judged by C19). Distinct = distinct dispatch slots (prefix group, opcode) decoded by RefZ80 among executed instructions.',
+        'rule': 'table sweeps (exhaust.py): every entry of every 8-bit flag/result table executed on every engine and compared with RefZ80 (first 1256 scenarios of each batch); register sweeps: boundary-value pools per dispatch slot; then each executed instruction of each replica is compared with RefZ80 (registers, documented flags only, memory writes, port events, T-states; contended engines: T minus RefULA delay is judged by C19). Distinct = distinct dispatch slots (prefix group, opcode) decoded by RefZ80 among executed instructions.',
         'assumptions': ['RefZ80 is the harness author\'s reading of the Zilog manual + agreed undocumented behaviour; bits 3/5 of F, MEMPTR and documented-undefined flags are not compared',
                         'IM result of ED4E/ED6E is not compared; halted CPU keeps PC on the HALT opcode (SkoolKit convention) and leaves it when an interrupt is due',
                         '128K machines always have the paging tracer attached (paging is not Z80 semantics)'],
